@@ -1,7 +1,7 @@
 (* C13 structure: who consumes which random draw in Issuer::encode. *)
 From Coq Require Import List String Ascii Bool Arith ZArith Lia.
 Import ListNotations.
-Require Import SDJ.Json SDJ.Wire SDJ.Model2 SDJ.Out SDJ.Split SDJ.Restore2 SDJ.Issuer2.
+Require Import SDJ.Json SDJ.Wire SDJ.Model2 SDJ.Out SDJ.Split SDJ.Restore2 SDJ.Issuer1 SDJ.Issuer2.
 Local Open Scope string_scope.
 
 Section S.
@@ -11,7 +11,7 @@ Definition made_with (d : disc) (salt : json) : Prop := d = mk_disc E salt (d_ke
 
 Lemma disclose_here_made key salt j j' d : disclose_here E key salt j = Ok (j', d) -> made_with d salt.
 Proof.
-  destruct j; cbn; try discriminate.
+  unfold disclose_here, made_with, mk_disc. destruct j; cbn; try discriminate.
   - destruct (parse_usize key); [|discriminate]. destruct (nth_error xs n); [|discriminate].
     intros H. injection H as _ <-. reflexivity.
   - destruct (obj_get key kvs); [|discriminate]. destruct (_ || _); [discriminate|].
@@ -21,12 +21,12 @@ Qed.
 Lemma update_at_made {A} (P : A -> Prop) (f : json -> res (json * A)) :
   (forall j j' a, f j = Ok (j', a) -> P a) -> forall toks j j' a, update_at toks f j = Ok (j', a) -> P a.
 Proof.
-  intros Hf. induction toks as [|tok rest IH]; intros j j' a Hu; cbn in Hu; [eauto|].
+  intros Hf. unfold update_at. induction toks as [|tok rest IH]; intros j j' a Hu; cbn in Hu; [eauto|].
   destruct j; try discriminate.
   - destruct (parse_index tok); [|discriminate]. destruct (nth_error xs n) as [v|]; [|discriminate].
-    destruct (update_at rest f v) as [[v' a']|] eqn:Eu; cbn in Hu; [|discriminate]. injection Hu as _ <-. eauto.
+    destruct (Issuer1.update_at parse_index rest f v) as [[v' a']|] eqn:Eu; cbn in Hu; [|discriminate]. injection Hu as _ <-. eauto.
   - destruct (obj_get tok kvs) as [v|]; [|discriminate].
-    destruct (update_at rest f v) as [[v' a']|] eqn:Eu; cbn in Hu; [|discriminate]. injection Hu as _ <-. eauto.
+    destruct (Issuer1.update_at parse_index rest f v) as [[v' a']|] eqn:Eu; cbn in Hu; [|discriminate]. injection Hu as _ <-. eauto.
 Qed.
 
 Lemma build_disclosure_made c p salt c' d : build_disclosure E c p salt = Ok (c', d) -> made_with d salt.
@@ -65,7 +65,7 @@ Hypothesis hash_inj : forall a b, ie_hash E a = ie_hash E b -> a = b.
 
 Lemma made_with_salt d salt : made_with d salt ->
   exists rest, d_str d = ie_enc E (salt :: rest) /\ d_digest d = ie_hash E (d_str d).
-Proof. intros ->. cbn. destruct (d_key d); eexists; split; reflexivity. Qed.
+Proof. intros ->. unfold mk_disc, Issuer1.mk_disc. cbn. destruct (d_key d); eexists; split; reflexivity. Qed.
 
 Theorem digests_distinct : forall ds salts, Forall2 made_with ds salts -> NoDup salts -> NoDup (map d_digest ds).
 Proof.
@@ -90,7 +90,7 @@ Theorem sd_insertion_position E key salt kvs v ds :
   exists d, disclose_here E key salt (JObj kvs) =
             Ok (JObj (obj_insert "_sd" (JArr (insert_at (ie_pos E (d_digest d)) (JStr (d_digest d)) ds)) (obj_remove key kvs)), d)
             /\ d = mk_disc E salt (Some key) v.
-Proof. intros H1 H2 H3. exists (mk_disc E salt (Some key) v). cbn. rewrite H1, H2, H3. split; reflexivity. Qed.
+Proof. intros H1 H2 H3. exists (mk_disc E salt (Some key) v). unfold disclose_here, mk_disc. cbn. rewrite H1, H2, H3. split; reflexivity. Qed.
 
 (* decoys: exactly the drawn decoy digests are appended to the top-level list, which is then permuted by
    the shuffle draw *)
